@@ -436,20 +436,21 @@ class TaskDispatcher(object):
         https://docs.aws.amazon.com/step-functions/latest/dg/limits.html
         We do the test here as we have the raw JSON string handy.
         """
-        if len(message_body) > MAX_DATA_LENGTH:
-            result = {"errorType": "States.DataLimitExceeded"}
-        else:
-            try:
-                result_as_string = message_body.decode("utf8")
+        try:
+            # The quota is in characters, not in bytes of the UTF-8 encoding.
+            result_as_string = message_body.decode("utf8")
+            if len(result_as_string) > MAX_DATA_LENGTH:
+                result = {"errorType": "States.DataLimitExceeded"}
+            else:
                 result = json.loads(result_as_string)
-            except ValueError as e:
-                error_message = ("Response {} does not contain "
-                    "valid JSON").format(message.body)
-                result = {
-                    "errorType": "States.Runtime",
-                    "errorMessage": error_message
-                }
-                self.logger.error(error_message)
+        except ValueError as e:
+            error_message = ("Response {} does not contain "
+                "valid JSON").format(message.body)
+            result = {
+                "errorType": "States.Runtime",
+                "errorMessage": error_message
+            }
+            self.logger.error(error_message)
 
         error_type = None
         if isinstance(result, dict):
